@@ -11,10 +11,10 @@
 #include <sys/stat.h>
 #include <unistd.h>
 
-enum { CL_B_OK, CL_A_OK, CL_STRERROR_OK, CL_EOF_AFTER_CLOSE, CL_INHERIT_OK, CL_PREEMPT0, CL_PREEMPT1, CL_PREEMPT2, CL_FORK_BETWEEN_PIPE_AND_CLOEXEC };
+enum { CL_B_OK, CL_A_OK, CL_STRERROR_OK, CL_EOF_AFTER_CLOSE, CL_INHERIT_OK, CL_PREEMPT0, CL_PREEMPT1, CL_PREEMPT2, CL_FORK_BETWEEN_PIPE_AND_CLOEXEC, CL_D_OK };
 static const char *const c20_clauses[] = { "own-bytes-and-status", "reader-writer-echo-complete", "strerror-per-thread", "eof-right-after-own-close",
                                            "child-inherits-only-its-own", "zero-preemptions", "one-preemption", "two-preemptions",
-                                           "fork-while-other-thread-holds-raw-pipe", NULL };
+                                           "fork-while-other-thread-holds-raw-pipe", "drained-own-bytes-and-status", NULL };
 
 static char key[160];
 #define CAP 4096
@@ -114,6 +114,85 @@ static void run_b(int nthreads, int bound, int real_exec)
   if (vk_double_closes || vk_foreign_closes)
     vk_violation("C20", "cross-talk-close", key, "with %d threads the library closed %d descriptor(s) twice and %d that were not its own (a number freed too early can be another thread's new descriptor)",
                  nthreads, vk_double_closes, vk_foreign_closes);
+  if (vk_fd_ledger_open_count() || vk_heap_live_count())
+    vk_violation("C05", "ledgers-after-threads", key, "%d descriptor(s), %d block(s) left", vk_fd_ledger_open_count(), vk_heap_live_count());
+}
+
+/* ---------------------------------------------------------------- (D) independent children drained from independent threads */
+struct td {
+  int id;
+  reproc_t *p;
+  struct vk_child *c;
+  uint8_t data[8];
+  int nread, wrong, closed_calls;
+};
+
+static int sink_d(REPROC_STREAM stream, const uint8_t *buffer, size_t size, void *context)
+{
+  struct td *t = context;
+  if (stream != REPROC_STREAM_OUT) return 0;
+  if (size == 0) { t->closed_calls++; return 0; }
+  /* a sink is user code: it may be preempted before it has looked at the chunk it was handed */
+  vk_sched_point("user");
+  for (size_t i = 0; i < size; i++)
+    if (t->nread + (int) i >= 5 || buffer[i] != t->data[t->nread + (int) i]) t->wrong++;
+  t->nread += (int) size;
+  return 0;
+}
+
+static void *body_d(void *arg)
+{
+  struct td *t = arg;
+  char script[32];
+  snprintf(script, sizeof script, "E X%d", 10 + t->id);
+  t->p = reproc_new();
+  reproc_options o;
+  memset(&o, 0, sizeof o);
+  vk_script(script);
+  vk_api_seq = 3000 + t->id;
+  int r = reproc_start(t->p, hx_helper_argv(), o);
+  if (r < 0) { vk_violation("C20", "concurrent-start", key, "thread %d: start returned %s", t->id, hx_errname(r)); return NULL; }
+  t->c = vk_child_by_pid(reproc_pid(t->p));
+  if (!t->c) { vk_violation("C20", "concurrent-start", key, "thread %d: no child", t->id); return NULL; }
+  t->c->steps[t->c->nsteps - 1].a = 10 + t->id;
+  for (int i = 0; i < 5; i++) t->data[i] = (uint8_t) (0x40 + t->id * 16 + i);
+  reproc_write(t->p, t->data, 5);
+  reproc_close(t->p, REPROC_STREAM_IN);
+  for (int guard = 0; guard < 8 && t->c->state == CH_RUNNING && t->c->pos == 0; guard++) {
+    if (!vk_child_enabled(t->c)) break;
+    vk_child_step(t->c);
+  }
+  reproc_sink sk = { sink_d, t };
+  r = reproc_drain(t->p, sk, REPROC_SINK_NULL);
+  int st = reproc_wait(t->p, REPROC_INFINITE);
+  if (r != 0) vk_violation("C20", "own-output", key, "thread %d: drain returned %s", t->id, hx_errname(r));
+  else if (t->wrong || t->nread != 5) vk_violation("C20", "drained-own-output", key, "thread %d: its sink was handed %d byte(s), %d of them not what its own child wrote (another thread's chunk)", t->id, t->nread, t->wrong);
+  else if (st != 10 + t->id) vk_violation("C20", "own-status", key, "thread %d: wait returned %s, its child exits with %d", t->id, hx_errname(st), 10 + t->id);
+  else vk_hit(CL_D_OK);
+  reproc_destroy(t->p);
+  vk_api_seq = 0;
+  return NULL;
+}
+
+static void run_d(int bound)
+{
+  memset(&vk_cfg, 0, sizeof vk_cfg);
+  vk_cfg.sched_on = 1;
+  vk_cfg.sched_bound = bound;
+  vk_cfg.vlimit = 40;
+  vk_cfg.hello_lite = 1;
+  snprintf(key, sizeof key, "h_c20|independent-children,drained|threads=2|preemptions<=%d", bound);
+  hx_desc("%s", key);
+  snprintf(key, sizeof key, "h_c20|independent-children,drained");
+  hx_begin();
+  static struct td t[2];
+  memset(t, 0, sizeof t);
+  int idx[2];
+  for (int i = 0; i < 2; i++) { t[i].id = i + 1; idx[i] = vk_thread_create(body_d, &t[i]); }
+  for (int i = 0; i < 2; i++) vk_thread_join(idx[i]);
+  int used = S->used[K_SCHED];
+  vk_hit(used == 0 ? CL_PREEMPT0 : used == 1 ? CL_PREEMPT1 : CL_PREEMPT2);
+  vk_obs("drain threads done: %d/%d %d/%d", t[0].nread, t[0].wrong, t[1].nread, t[1].wrong);
   if (vk_fd_ledger_open_count() || vk_heap_live_count())
     vk_violation("C05", "ledgers-after-threads", key, "%d descriptor(s), %d block(s) left", vk_fd_ledger_open_count(), vk_heap_live_count());
 }
@@ -231,7 +310,7 @@ static void run_c(void)
   vk_thread_join(b);
 }
 
-static long c20_n(int tier) { return tier ? 5 : 4; }
+static long c20_n(int tier) { return tier ? 6 : 5; }
 static void c20_run(int tier, long cfg)
 {
   switch (cfg) {
@@ -239,8 +318,8 @@ static void c20_run(int tier, long cfg)
     case 1: run_a(tier ? 3 : 2); break;
     case 2: run_c(); break;
     case 3: run_b(2, 1, 1); break;
-    case 4: run_b(3, 0, 0); break; /* three threads: every free alternative (blocked calls, joins, exits), no preemption */
-    case 5: run_b(2, 1, 0); break;
+    case 4: run_d(tier ? 2 : 1); break;
+    case 5: run_b(3, 0, 0); break; /* three threads: every free alternative (blocked calls, joins, exits), no preemption */
   }
 }
 
